@@ -268,3 +268,7 @@ def check(P, R, tier):
     R.assumptions = ["store reads reflect earlier writes and notify_read completes only once the key exists (C16)",
                      "try_join_all resolves Ok only when every future resolved Ok"]
     rules(P, R)
+    # D1 second half: the loop-back routes into process_block (payload waiter, synchronizer, proposer) only carry blocks that
+    # already passed the handler (C05.K3: in particular the synchronizer may only be entered from process_block / commit)
+    from ..common import fold
+    fold(R, P, "c05", ("C05.K3",), "C08.D1", 10)
